@@ -4,3 +4,5 @@ import AmaranthVerif.Spec.Denote
 import AmaranthVerif.Properties.C01
 import AmaranthVerif.Properties.C05
 import AmaranthVerif.Properties.C17
+import AmaranthVerif.Properties.C10
+import AmaranthVerif.Properties.C12
